@@ -141,7 +141,7 @@ impl Stats {
 pub trait Lane {
     const ID: &'static str;
     type Body: Serialize + DeserializeOwned + Clone + std::fmt::Debug;
-    fn draw(rng: &mut Rng, tier: Tier) -> Scenario<Self::Body>;
+    fn draw(rng: &mut Rng, tier: Tier, run_index: u64) -> Scenario<Self::Body>;
     /// Execute the scenario under all of its configurations and judge it.
     fn run(sc: &Scenario<Self::Body>, st: &mut Stats) -> Vec<Violation>;
     /// Smaller variants of the body (the framework shrinks configurations itself).
@@ -215,7 +215,7 @@ pub fn worker<L: Lane>(a: &WorkerArgs) -> i32 {
         let _ = std::io::stdout().flush();
         let seed = run_seed(a.verif_seed, L::ID, a.tier, idx);
         let mut rng = Rng::new(seed);
-        let sc = L::draw(&mut rng, a.tier);
+        let sc = L::draw(&mut rng, a.tier, idx);
         let before = (st.executions, st.steps);
         let sd_len = st.sched_digests.len();
         let vs = L::run(&sc, &mut st);
@@ -274,7 +274,7 @@ pub fn worker<L: Lane>(a: &WorkerArgs) -> i32 {
 pub fn dump<L: Lane>(tier: Tier, verif_seed: u64, run_index: u64, out: &str) -> i32 {
     let seed = run_seed(verif_seed, L::ID, tier, run_index);
     let mut rng = Rng::new(seed);
-    let sc = L::draw(&mut rng, tier);
+    let sc = L::draw(&mut rng, tier, run_index);
     let rf = ReplayFile {
         property: L::ID.to_string(),
         verif_seed,
@@ -313,6 +313,55 @@ pub fn replay<L: Lane>(path: &str) -> Result<(ReplayFile<L::Body>, Vec<Violation
     Ok((rf, vs))
 }
 
+/// Execute a scenario in a forked child so that a scenario which kills the
+/// process (abort on an unsafe-precondition check, SIGSEGV from an
+/// out-of-bounds access) is an observable outcome instead of the end of the
+/// minimiser. The worker process is single-threaded, so fork is safe here.
+pub fn run_isolated<L: Lane>(sc: &Scenario<L::Body>) -> Vec<Violation> {
+    use std::io::Read;
+    use std::os::fd::FromRawFd;
+    let mut fds = [0 as libc::c_int; 2];
+    if unsafe { libc::pipe(fds.as_mut_ptr()) } != 0 {
+        let mut st = Stats::default();
+        return L::run(sc, &mut st);
+    }
+    let pid = unsafe { libc::fork() };
+    if pid == 0 {
+        unsafe {
+            let _ = libc::close(fds[0]);
+        }
+        let mut st = Stats::default();
+        let vs = L::run(sc, &mut st);
+        let text = serde_json::to_vec(&vs).unwrap_or_default();
+        let mut off = 0;
+        while off < text.len() {
+            let n = unsafe { libc::write(fds[1], text[off..].as_ptr().cast(), text.len() - off) };
+            if n <= 0 {
+                break;
+            }
+            off += n as usize;
+        }
+        unsafe { libc::_exit(0) };
+    }
+    unsafe {
+        let _ = libc::close(fds[1]);
+    }
+    let mut buf = Vec::new();
+    let mut f = unsafe { std::fs::File::from_raw_fd(fds[0]) };
+    let _ = f.read_to_end(&mut buf);
+    let mut status: libc::c_int = 0;
+    let _ = unsafe { libc::waitpid(pid, &mut status, 0) };
+    if libc::WIFSIGNALED(status) {
+        return vec![Violation::new(
+            "process_killed",
+            "?",
+            "",
+            format!("executing this scenario killed the process with signal {}", libc::WTERMSIG(status)),
+        )];
+    }
+    serde_json::from_slice(&buf).unwrap_or_default()
+}
+
 fn same_violation(vs: &[Violation], want: &Violation) -> Option<Violation> {
     vs.iter().find(|v| v.class == want.class && v.op == want.op).cloned()
 }
@@ -326,7 +375,6 @@ pub fn minimise<L: Lane>(path: &str, out_path: &str, budget: usize) -> Result<Re
     let text = std::fs::read_to_string(path).map_err(|e| format!("read {path}: {e}"))?;
     let mut rf: ReplayFile<L::Body> = serde_json::from_str(&text).map_err(|e| format!("parse: {e}"))?;
     let want = rf.violation.clone();
-    let mut st = Stats::default();
     let mut tries = 0usize;
     // the recorded trace is authoritative only for the original scenario; candidates re-derive it
     let mut cur = rf.scenario.clone();
@@ -335,7 +383,7 @@ pub fn minimise<L: Lane>(path: &str, out_path: &str, budget: usize) -> Result<Re
             c.trace = None;
         }
     }
-    let mut cur_v = match same_violation(&L::run(&cur, &mut st), &want) {
+    let mut cur_v = match same_violation(&run_isolated::<L>(&cur), &want) {
         Some(v) => v,
         None => return Err("violation does not reproduce before minimisation".into()),
     };
@@ -416,7 +464,7 @@ pub fn minimise<L: Lane>(path: &str, out_path: &str, budget: usize) -> Result<Re
             if c.confs.is_empty() {
                 continue;
             }
-            let vs = L::run(&c, &mut st);
+            let vs = run_isolated::<L>(&c);
             if let Some(v) = same_violation(&vs, &want) {
                 cur = c;
                 cur_v = v;
@@ -431,7 +479,7 @@ pub fn minimise<L: Lane>(path: &str, out_path: &str, budget: usize) -> Result<Re
             let mut pinned = cur.clone();
             pinned.confs[ci].sched = SchedSpec { kind: SchedKind::Trace, seed: cur.confs[ci].sched.seed };
             pinned.confs[ci].trace = Some(tr);
-            let vs = L::run(&pinned, &mut st);
+            let vs = run_isolated::<L>(&pinned);
             if let Some(v) = same_violation(&vs, &want) {
                 cur = pinned;
                 cur_v = v;
